@@ -4,6 +4,9 @@
 -/
 import SyModel.Engine.Escape
 import SyModel.Lemmas.Engine
+import SyModel.Lemmas.EngineFilter
+import SyModel.Lemmas.EngineContain
+import SyModel.Props.C01
 import SyModel.Generated.Consts
 namespace SyModel.Props.C02
 open SyModel SyModel.Engine
@@ -87,6 +90,155 @@ theorem dry_run_writes_nothing (pol : Policy) (res : Resolver) (cfg : Cfg) (hd :
   induction tasks generalizing st with
   | nil => rfl
   | cons t ts ih => simp [runFootprint, writeFootprint, hd, ih]
+
+/-! ### a destination link standing where the source has a directory is replaced, never followed (fix 862af11) -/
+
+/-- **No task enters a link's target.**  On the PLAN: for every planned task `t` and every proper (non-root) prefix `q`
+    of its path, if the destination holds a symlink at `q` then the plan contains the replacement of that link by a
+    directory — the task `update q` with a directory payload — and it comes BEFORE `t`.  So the only planned paths
+    below a destination link are below a link that the same plan replaces first; nothing is ever compared with, or
+    written into, what a link points to.  Hypotheses: the scan lists parents first and no path twice (what a walk
+    yields), the destination listing is a tree (`DstParentClosed`: nothing is listed BELOW a link — links are not
+    resolved by the listing). -/
+theorem link_target_never_entered (cfg : Cfg) (scan : List SEntry) (dst : Map DNode)
+    (hu : UniqueRels scan) (hpf : ParentsFirst scan) (hc : DstParentClosed dst) :
+    ∀ t ∈ plan cfg scan dst, ∀ q, q ≠ [] → isPrefix q t.rel = true → q ≠ t.rel →
+      ∀ s, dst.get? q = some (.symlink s) →
+        ∃ pre post, plan cfg scan dst = pre ++ t :: post ∧ (⟨.update, q, .dir⟩ : Task) ∈ pre := by
+  intro t ht q hq0 hqp hqne s hs
+  by_cases hdel : t.act = .delete
+  · -- a planned deletion is a listed destination path: its ancestors are directories, not links
+    exfalso
+    obtain ⟨_, htd⟩ := deletion_of_task ht hdel
+    obtain ⟨p, rfl, hk, _⟩ := mem_planDeletions.1 htd
+    have := hc p hk q (mem_ancestors.2 ⟨hq0, hqp, hqne⟩)
+    rw [hs] at this; cases this
+  · obtain ⟨e, he, rfl⟩ := entry_of_task ht hdel
+    rw [planEntry_rel] at hqp hqne
+    obtain ⟨d, A, B, hsplit, hdr, hdk, heB⟩ :=
+      selected_ancestor_before hu hpf he (mem_ancestors.2 ⟨hq0, hqp, hqne⟩)
+    obtain ⟨B1, B2, hB⟩ := List.append_of_mem heB
+    have hpd : planEntry cfg dst d = ⟨.update, q, .dir⟩ := by
+      unfold planEntry; simp only [hdk, hdr, hs]
+    refine ⟨A.map (planEntry cfg dst) ++ planEntry cfg dst d :: B1.map (planEntry cfg dst),
+      B2.map (planEntry cfg dst) ++ (if cfg.delete then planDeletions (scanFilter cfg scan) scan dst else []), ?_, ?_⟩
+    · rw [plan_eq, hsplit, hB]; simp
+    · rw [hpd]; simp
+
+/-- **C01's postcondition WITHOUT excluding this configuration.**  If the destination holds a symlink at the path of
+    a selected source directory `d` (an earlier run placed it when the source entry was still a link), then after a
+    (non-dry) run that exits 0 — under EVERY fault plan — that path is a directory, the replacement is in the report as
+    an `update`, and every selected entry below it exists with the source's data: directories as directories, regular
+    files (and followed links to files) with the source's content, size and mtime, preserved links with the source's
+    text.  Nothing below the link existed in the destination listing (`DstParentClosed`), so every file below it is
+    transferred, whatever the comparison rule. -/
+theorem dir_over_own_link_replaced_faults (cfg : Cfg) (hnd : cfg.dryRun = false) (flt : Faults) (scan : List SEntry)
+    (dst : Map DNode) (n : Nat) (hu : UniqueRels scan)
+    (hdel : cfg.delete = true → ParentClosed scan ∧ dst.get? [] = none)
+    (hino : cfg.hardlinks = true → InoConsistent scan) (hc : DstParentClosed dst)
+    (d : SEntry) (hd : d ∈ scanFilter cfg scan) (hk : d.kind = .dir) (hne : d.rel ≠ [])
+    (s : String) (hl : dst.get? d.rel = some (.symlink s))
+    (hok : (runF cfg flt scan dst n).exit = 0) :
+    (runF cfg flt scan dst n).dst.get? d.rel = some .dir ∧
+    (Act.update, d.rel) ∈ (runF cfg flt scan dst n).events ∧
+    ∀ e ∈ scanFilter cfg scan, isPrefix d.rel e.rel = true → e.rel ≠ d.rel →
+      dst.get? e.rel = none ∧
+      (e.kind = .dir → (runF cfg flt scan dst n).dst.get? e.rel = some .dir) ∧
+      (∀ m k, e.kind = .file m k → ∃ f, (runF cfg flt scan dst n).dst.get? e.rel = some (.file f) ∧
+        C01.Carries cfg f m) ∧
+      (∀ text tgt, e.kind = .symlink text tgt → cfg.links = .preserve →
+        (runF cfg flt scan dst n).dst.get? e.rel = some (.symlink text)) ∧
+      (∀ text m, e.kind = .symlink text (.file m) → cfg.links = .follow →
+        ∃ f, (runF cfg flt scan dst n).dst.get? e.rel = some (.file f) ∧ C01.Carries cfg f m) := by
+  have hC := C01.C01 cfg hnd flt scan dst n hu hdel hino hok
+  refine ⟨(hC d hd).1 hk hne, ?_, fun e he hp hner => ?_⟩
+  · -- the replacement completed: its event is in the report
+    have hr := (runF_exit_zero hok).1
+    have hact : (planEntry cfg dst d).act = .update := by
+      unfold planEntry; simp only [hk, hl]
+    rw [← hact]
+    exact (event_iff_taskOk hu hd hr).2 (taskOk_of_exit_zero hok (planEntry_mem_plan hd))
+  · -- nothing is listed below a link
+    have habs : dst.get? e.rel = none := by
+      cases hg : dst.get? e.rel with
+      | none => rfl
+      | some v =>
+        have := hc.anc (by rw [hg]; simp) hne hp (Ne.symm hner)
+        rw [hl] at this; cases this
+    obtain ⟨h1, h2, h3, h4, _⟩ := hC e he
+    have hne0 : e.rel ≠ [] := by
+      intro h0
+      rw [h0] at hp
+      cases hdr : d.rel with
+      | nil => exact hne hdr
+      | cons a r => rw [hdr] at hp; simp [isPrefix] at hp
+    refine ⟨habs, fun hk' => h1 hk' hne0, fun m k hk' => ?_, h3, fun text m hk' hl' => ?_⟩
+    · obtain ⟨f, hf, hcar⟩ := h2 m k hk'
+      exact ⟨f, hf, hcar (by rw [habs]; simp [planFileAct])⟩
+    · obtain ⟨f, hf, hcar⟩ := h4 text m hk' hl'
+      exact ⟨f, hf, hcar (by rw [habs]; simp [planFileAct])⟩
+
+/-- … in particular for every fault-free run of the model (`run`). -/
+theorem dir_over_own_link_replaced (cfg : Cfg) (hnd : cfg.dryRun = false) (scan : List SEntry)
+    (dst : Map DNode) (n : Nat) (hu : UniqueRels scan)
+    (hdel : cfg.delete = true → ParentClosed scan ∧ dst.get? [] = none)
+    (hino : cfg.hardlinks = true → InoConsistent scan) (hc : DstParentClosed dst)
+    (d : SEntry) (hd : d ∈ scanFilter cfg scan) (hk : d.kind = .dir) (hne : d.rel ≠ [])
+    (s : String) (hl : dst.get? d.rel = some (.symlink s))
+    (hok : (run cfg scan dst n).exit = 0) :
+    (run cfg scan dst n).dst.get? d.rel = some .dir ∧
+    (Act.update, d.rel) ∈ (run cfg scan dst n).events ∧
+    ∀ e ∈ scanFilter cfg scan, isPrefix d.rel e.rel = true → e.rel ≠ d.rel →
+      dst.get? e.rel = none ∧
+      (e.kind = .dir → (run cfg scan dst n).dst.get? e.rel = some .dir) ∧
+      (∀ m k, e.kind = .file m k → ∃ f, (run cfg scan dst n).dst.get? e.rel = some (.file f) ∧
+        C01.Carries cfg f m) ∧
+      (∀ text tgt, e.kind = .symlink text tgt → cfg.links = .preserve →
+        (run cfg scan dst n).dst.get? e.rel = some (.symlink text)) ∧
+      (∀ text m, e.kind = .symlink text (.file m) → cfg.links = .follow →
+        ∃ f, (run cfg scan dst n).dst.get? e.rel = some (.file f) ∧ C01.Carries cfg f m) :=
+  dir_over_own_link_replaced_faults cfg hnd noFaults scan dst n hu hdel hino hc d hd hk hne s hl hok
+
+/-! #### non-vacuity: the configuration of the differential check (tools: `model862_diff.py`) -/
+
+/-- source `a.txt`, `d/`, `d/f.txt`, `d/keep.txt`; destination `a.txt` (up to date) and the link `d -> ../outside` -/
+def lnkScan : List SEntry :=
+  [ ⟨["a.txt"], .file (exMeta 1 2 5000000000 11) 1, 2, false⟩,
+    ⟨["d"], .dir, 4096, false⟩,
+    ⟨["d", "f.txt"], .file (exMeta 2 2 6000000000 12) 1, 2, false⟩,
+    ⟨["d", "keep.txt"], .file (exMeta 3 5 7000000000 13) 1, 5, false⟩ ]
+
+def lnkDst : Map DNode := [ (["a.txt"], .file (exMeta 1 2 5000000000 90)), (["d"], .symlink "../outside") ]
+
+def lnkCfg : Cfg := { C01.cxCfg with xattrs := true }
+
+example : UniqueRels lnkScan := by decide
+example : ParentsFirst lnkScan := by decide
+example : DstParentClosed lnkDst := by decide
+example : (run lnkCfg lnkScan lnkDst 100).exit = 0 := by decide
+
+/-- the plan: skip `a.txt`, REPLACE `d` (update), create both files below it -/
+example : (plan lnkCfg lnkScan lnkDst).map (fun t => (t.act, t.rel)) =
+    [(.skip, ["a.txt"]), (.update, ["d"]), (.create, ["d", "f.txt"]), (.create, ["d", "keep.txt"])] := by decide
+
+/-- `link_target_never_entered` applied: `d/keep.txt` lies below the link `d`, and the replacement of `d` precedes it -/
+example : ∃ pre post, plan lnkCfg lnkScan lnkDst = pre ++ (⟨.create, ["d", "keep.txt"],
+    .file (exMeta 3 5 7000000000 13) 1⟩ : Task) :: post ∧ (⟨.update, ["d"], .dir⟩ : Task) ∈ pre :=
+  link_target_never_entered lnkCfg lnkScan lnkDst (by decide) (by decide) (by decide) _ (by decide) ["d"]
+    (by decide) (by decide) (by decide) "../outside" (by decide)
+
+/-- `dir_over_own_link_replaced` applied: `d` is a directory afterwards and `d/keep.txt` carries the source's data -/
+example : (run lnkCfg lnkScan lnkDst 100).dst.get? ["d"] = some .dir ∧
+    ∃ f, (run lnkCfg lnkScan lnkDst 100).dst.get? ["d", "keep.txt"] = some (.file f) ∧
+      C01.Carries lnkCfg f (exMeta 3 5 7000000000 13) := by
+  have h := dir_over_own_link_replaced lnkCfg rfl lnkScan lnkDst 100 (by decide) (fun h => by cases h)
+    (fun h => by cases h) (by decide) ⟨["d"], .dir, 4096, false⟩ (by decide) rfl (by decide) "../outside" (by decide)
+    (by decide)
+  exact ⟨h.1, (h.2.2 ⟨["d", "keep.txt"], .file (exMeta 3 5 7000000000 13) 1, 5, false⟩ (by decide) (by decide)
+    (by decide)).2.2.1 _ _ rfl⟩
+
+/-- the hypothesis `DstParentClosed` is not trivially true: a listing with an entry below a link is not a tree -/
+example : ¬ DstParentClosed [(["d"], .symlink "x"), (["d", "f"], .dir)] := by decide
 
 /-! ### the pinned code wrote through its own links (fixed in /repo commit 0eacf0e) -/
 
